@@ -911,21 +911,48 @@ theorem C15_table_lookup (cd : Codec) (s : HState) (sid : Nat) (a p : Bytes) :
       | some h => .reply (recvWire cd (s.conn h) ⟨true, a, p⟩).2 := by
   cases ht : s.table sid <;> simp [hstep, ht]
 
-/-- a session id that is used again: whatever state the handler is in (the sid registered or not,
-any number of earlier streams with that sid, packets handled, closed by either side), after a
-stream with that sid is opened its packet 0 with a decodable payload is acknowledged and lands in
-the NEW connection, which held nothing before -/
+/-- a session id that is used again: whatever state the handler is in as long as the sid is FREE
+(never used, or any number of earlier streams with that sid, packets handled, closed by either
+side), after a stream with that sid is opened its packet 0 with a decodable payload is
+acknowledged and lands in the NEW connection, which held nothing before -/
 theorem C15_reopened_sid_is_fresh (cd : Codec) (s : HState) (sid : Nat) (p d : Bytes)
-    (hd : cd.dec p = some d) :
+    (hfree : s.table sid = none) (hd : cd.dec p = some d) :
     let s1 := (hstep cd s (.open sid)).1
+    (hstep cd s (.open sid)).2 = .opened s.next ∧
     (hstep cd s1 (.data sid [48] p)).2 = .reply .ack ∧
     ((hstep cd s1 (.data sid [48] p)).1.conn s.next).buf = d ∧
     (∀ h, h ≠ s.next → (hstep cd s1 (.data sid [48] p)).1.conn h = s.conn h) := by
   have hp : parseSeqAttr [48] = .num 0 := by decide
-  simp only [hstep, if_pos, setConn, recvWire, fresh, hp, recv, hd]
-  refine ⟨by simp, by simp, ?_⟩
+  simp only [hstep, hfree, Option.isSome_none, Bool.false_eq_true, if_false, if_pos, setConn, recvWire, fresh, hp, recv, hd]
+  refine ⟨trivial, by simp, by simp, ?_⟩
   intro h hh
   simp [hh]
+
+/-- a session id that is IN USE cannot be opened a second time — by the peer, by a third party, by
+anybody: the request is refused and nothing changes; in particular the next packet of the stream
+that has the id is handled by its connection exactly as if the request had never come -/
+theorem C15_open_in_use_refused (cd : Codec) (s : HState) (sid h : Nat) (a p : Bytes)
+    (hused : s.table sid = some h) :
+    hstep cd s (.open sid) = (s, .refused) ∧
+    hstep cd (hstep cd s (.open sid)).1 (.data sid a p) = hstep cd s (.data sid a p) := by
+  have : hstep cd s (.open sid) = (s, .refused) := by simp [hstep, hused]
+  exact ⟨this, by rw [this]⟩
+
+/-- stream 7 carries `ABC`; a second open for 7 is refused; packet 1 (`DEF`) of the stream is
+acknowledged and the reader of the ONE connection gets `ABCDEF` -/
+example : (hrun std {} [.open 7, .data 7 [48] [81, 85, 74, 68], .open 7, .data 7 [49] [82, 69, 86, 71], .read 0 8]).2 =
+    [.opened 0, .reply .ack, .refused, .reply .ack, .read (.data [65, 66, 67, 68, 69, 70])] := by decide
+
+/-- negation witness (the code before the round-E repair: `addStream` overwrote the entry): a
+handler that accepts the second open hands the stream's next packet to the new, empty connection,
+which expects number 0 — a valid, in-sequence packet of an open stream is refused -/
+theorem C15_open_overwrites_fails :
+    let s1 : HState := (hrun std {} [.open 7, .data 7 [48] [81, 85, 74, 68]]).1
+    let s2 : HState := { s1 with next := 2, conn := fun i => if i = 1 then fresh else s1.conn i,
+                                 table := fun x => if x = 7 then some 1 else s1.table x }
+    (hstep std s1 (.data 7 [49] [82, 69, 86, 71])).2 = .reply .ack ∧
+    (hstep std s2 (.data 7 [49] [82, 69, 86, 71])).2 = .reply .unexpectedRequest := by
+  decide
 
 /-- closing a stream (either side) unregisters its sid: later packets for it are refused with
 item-not-found until a stream with that sid is opened again; the closed connection keeps its bytes -/
